@@ -168,7 +168,12 @@ func (d *dspec) oval() val {
 
 // xmatches: clause c is satisfied by stored triple d under environment e
 // (extended with c's fresh bindings) and the global time window g.  One term.
-func (c xclause) xmatches(d *dspec, e env, g window) bool {
+func (c xclause) xmatches(d *dspec, e env, g window) bool { return c.xmatchesOpt(d, e, g, false) }
+
+// xmatchesOpt: as xmatches; inside an OPTIONAL clause (optional = true) an
+// extraction that cannot apply to the triple yields NULL for its binding
+// instead of discarding the triple (docs/bql.md, "OPTIONAL clause").
+func (c xclause) xmatchesOpt(d *dspec, e env, g window, optional bool) bool {
 	r := true
 	bind := func(name string, v val) {
 		if name != "" {
@@ -190,9 +195,13 @@ func (c xclause) xmatches(d *dspec, e env, g window) bool {
 		switch {
 		case c.at != "":
 			if d.pk != 1 {
-				return false
+				if !optional {
+					return false
+				}
+				bind(c.at, val{kind: 7})
+			} else {
+				bind(c.at, val{kind: 3, pa: d.pa})
 			}
-			bind(c.at, val{kind: 3, pa: d.pa})
 		case c.bound:
 			if d.pk != 1 || !(window{c.lo, c.hi}).contains(anchors[d.pa]) {
 				return false
@@ -207,9 +216,13 @@ func (c xclause) xmatches(d *dspec, e env, g window) bool {
 	bind(c.pID, val{kind: 4, b: d.pb})
 	if c.pAt != "" {
 		if d.pk != 1 {
-			return false
+			if !optional {
+				return false
+			}
+			bind(c.pAt, val{kind: 7})
+		} else {
+			bind(c.pAt, val{kind: 3, pa: d.pa})
 		}
-		bind(c.pAt, val{kind: 3, pa: d.pa})
 	}
 	// the global window constrains temporal triples only
 	if d.pk == 1 && !g.contains(anchors[d.pa]) {
@@ -217,11 +230,15 @@ func (c xclause) xmatches(d *dspec, e env, g window) bool {
 	}
 	// object
 	if c.oAtBind != "" {
-		if d.ok != 4 {
+		if d.ok != 4 && !(optional && d.ok == 3) {
 			return false
 		}
 		r = verif.And(r, d.ob == c.o.cb)
-		bind(c.oAtBind, val{kind: 3, pa: d.oa})
+		if d.ok == 4 {
+			bind(c.oAtBind, val{kind: 3, pa: d.oa})
+		} else {
+			bind(c.oAtBind, val{kind: 7})
+		}
 	} else if c.oBound {
 		if d.ok != 4 || !(window{c.olo, c.ohi}).contains(anchors[d.oa]) {
 			return false
@@ -241,20 +258,31 @@ func (c xclause) xmatches(d *dspec, e env, g window) bool {
 		case 0, 3, 4:
 			bind(c.oID, val{kind: 4, b: d.ob})
 		default:
-			return false // no identifier to extract from a literal
+			if !optional {
+				return false // no identifier to extract from a literal
+			}
+			bind(c.oID, val{kind: 7})
 		}
 	}
 	if c.oType != "" {
 		if d.ok != 0 {
-			return false
+			if !optional {
+				return false
+			}
+			bind(c.oType, val{kind: 7})
+		} else {
+			bind(c.oType, val{kind: 5})
 		}
-		bind(c.oType, val{kind: 5})
 	}
 	if c.oAt != "" {
 		if d.ok != 4 {
-			return false
+			if !optional {
+				return false
+			}
+			bind(c.oAt, val{kind: 7})
+		} else {
+			bind(c.oAt, val{kind: 3, pa: d.oa})
 		}
-		bind(c.oAt, val{kind: 3, pa: d.oa})
 	}
 	return r
 }
